@@ -86,7 +86,7 @@ fn line_program(rng: &mut Rng, enc: Encoding, dwarf: &mut Dwarf) -> LineProgram 
     p
 }
 
-fn build_unit(rng: &mut Rng, enc: Encoding, dwarf: &mut Dwarf) {
+fn build_unit(rng: &mut Rng, enc: Encoding, dwarf: &mut Dwarf, earlier: &mut Vec<(gimli::write::UnitId, Vec<gimli::write::UnitEntryId>)>) {
     let lp = line_program(rng, enc, dwarf);
     let has_lp = !lp.is_none();
     let mut unit = Unit::new(enc, lp);
@@ -127,7 +127,7 @@ fn build_unit(rng: &mut Rng, enc: Encoding, dwarf: &mut Dwarf) {
             unit.get_mut(id).set_sibling(true);
         }
         for _ in 0..rng.usize(5) {
-            let (at, val) = match rng.below(22) {
+            let (at, val) = match rng.below(32) {
                 0 => (c::DW_AT_name, AttributeValue::String(b"n".to_vec())),
                 1 => (c::DW_AT_name, AttributeValue::StringRef(dwarf.strings.add(&b"shared_name"[..]))),
                 2 => (c::DW_AT_low_pc, AttributeValue::Address(Address::Constant(rng.below(0x10000)))),
@@ -174,12 +174,26 @@ fn build_unit(rng: &mut Rng, enc: Encoding, dwarf: &mut Dwarf) {
                 18 => (c::DW_AT_decl_file, AttributeValue::FileIndex(None)),
                 19 => (c::DW_AT_accessibility, AttributeValue::Accessibility(c::DW_ACCESS_public)),
                 20 => (c::DW_AT_signature, AttributeValue::DebugTypesRef(gimli::DebugTypeSignature(rng.next()))),
+                22 | 23 if !earlier.is_empty() => {
+                    // a reference into an earlier unit (DW_FORM_ref_addr)
+                    let (u, es) = rng.pick(earlier).clone();
+                    (c::DW_AT_type, AttributeValue::DebugInfoRef(gimli::write::DebugInfoRef::Entry(u, *rng.pick(&es))))
+                }
+                24 => (c::DW_AT_inline, AttributeValue::Inline(c::DW_INL_inlined)),
+                25 => (c::DW_AT_calling_convention, AttributeValue::CallingConvention(c::DW_CC_normal)),
+                26 => (c::DW_AT_visibility, AttributeValue::Visibility(c::DW_VIS_exported)),
+                27 => (c::DW_AT_virtuality, AttributeValue::Virtuality(c::DW_VIRTUALITY_virtual)),
+                28 => (c::DW_AT_identifier_case, AttributeValue::IdentifierCase(c::DW_ID_down_case)),
+                29 => (c::DW_AT_ordering, AttributeValue::Ordering(c::DW_ORD_col_major)),
+                30 => (c::DW_AT_decimal_sign, AttributeValue::DecimalSign(c::DW_DS_trailing_overpunch)),
+                31 => (c::DW_AT_endianity, AttributeValue::Endianity(c::DW_END_big)),
                 _ => (c::DW_AT_const_value, AttributeValue::Data16(rng.next() as u128 * 0x1_0000_0001)),
             };
             unit.get_mut(id).set(at, val);
         }
     }
-    dwarf.units.add(unit);
+    let uid = dwarf.units.add(unit);
+    earlier.push((uid, ids));
 }
 
 /// Build a small multi-unit DWARF and serialise it. Returns section name -> bytes
@@ -190,13 +204,14 @@ pub fn dwarf_sections(rng: &mut Rng, be: bool, addr_size: u8) -> Option<BTreeMap
     let res = std::panic::catch_unwind(move || {
         let rng = &mut rng2;
         let mut dwarf = Dwarf::new();
+        let mut earlier = Vec::new();
         for _ in 0..1 + rng.usize(3) {
             let enc = Encoding {
                 address_size: asz,
                 format: if rng.chance(1, 4) { Format::Dwarf64 } else { Format::Dwarf32 },
                 version: *rng.pick(&[2u16, 3, 4, 4, 5, 5]),
             };
-            build_unit(rng, enc, &mut dwarf);
+            build_unit(rng, enc, &mut dwarf, &mut earlier);
         }
         let mut sections = Sections::new(EndianVec::new(endian(be)));
         if dwarf.write(&mut sections).is_err() {
